@@ -1217,6 +1217,7 @@ impl<Alloc: BrotliAlloc> BrotliEncoderStateStruct<Alloc> {
             dict_size = max_dict_size;
         }
         self.copy_input_to_ring_buffer(dict_size, dict);
+        self.recoder_state.num_bytes_encoded = dict_size; // stream positions start behind the dictionary
         self.last_flush_pos_ = dict_size as u64;
         self.last_processed_pos_ = dict_size as u64;
         if dict_size > 0 {
